@@ -20,6 +20,7 @@ def check(chk, thorough=False):
     chk.run('C07.b', 'R-SCHEMA', 'every class used to probe the stream has a completeness check that can say "partial"', lambda ob: c07b(tree, ob), floor=2)
     chk.run('C07.c', 'R-SCHEMA', 'every length-prefixed field is verified against what was actually read, also when the value is empty', lambda ob: c07c(tree, ob), floor=6)
     chk.run('C07.d', 'R-SCHEMA', 'the completeness check accepts every bound message at its minimal encoded length', lambda ob: c07d(tree, ob), floor=7)
+    chk.run('C07.g', 'R-PAIR', 'trailing octets are not counted into a probed message: every probe class strips the padding layer before the message is measured', lambda ob: c07g(tree, ob), floor=3)
     chk.run('C07.f', 'R-FLOW', 'what is written to the socket is exactly the encoded messages: byte buffers only appended and prefix-dropped by what was accepted (= C01.b)', lambda ob: _c01b(tree, ob), floor=7)
     chk.run('C07.e', 'R-SCHEMA', 'message layouts equal RFC 9174 (= C04.h)', lambda ob: c04h(tree, ob), floor=7)
 
@@ -106,6 +107,106 @@ def c07b(tree, ob):
         else:
             ob.violate(rel, cls, 'post_dissection', 'probe class {} has no completeness check: a prefix of it is consumed as if it were whole, '
                        'and a shorter prefix raises out of the receive callback'.format(cls), tree.klass(rel, cls))
+            continue
+        # a header whose payload has not arrived at all is partial (for a known type)
+        fvp = FuncView(tree, got[0], got[1].name + '.post_dissection')
+        nopay = [r for r in walk_local(fvp.func) if isinstance(r, ast.Raise) and r.exc is not None and 'VerifyError' in src(r.exc) and fvp.has(r, 'self.payload', False)]
+        if not nopay:
+            ob.violate(rel, cls + '.post_dissection', 'if not self.payload: raise VerifyError', 'probe class {}: a header whose payload octets have not arrived yet is acted on as a whole message'.format(cls), fvp.func)
+        else:
+            ob.site(rel, nopay[0], '{}: missing payload => partial'.format(cls))
+        # the fixed-size fields of the probe class itself: one octet (the loop guarantees one), or guarded by a length
+        # check that reports "partial" before the fields are read (a short read otherwise raises struct.error)
+        own = sum(f.width or 0 for f in schema.fields_desc(tree, rel, cls))
+        pre = tree.find_method(rel, cls, 'pre_dissect')
+        guard = None
+        if pre and pre[1].name == cls:
+            fpre = FuncView(tree, pre[0], cls + '.pre_dissect')
+            arg = pre[2].args.args[1].arg if len(pre[2].args.args) > 1 else None
+            for r in walk_local(pre[2]):
+                if isinstance(r, ast.Raise) and r.exc is not None and 'VerifyError' in src(r.exc):
+                    for (text, pol) in fpre.facts(r) or ():
+                        got_n = _len_bound(tree, rel, text, pol, arg)
+                        if got_n is not None:
+                            guard = max(guard or 0, got_n)
+        if own <= 1:
+            ob.site(rel, tree.klass(rel, cls), '{}: fixed part is {} octet (the message loop runs on a non-empty buffer)'.format(cls, own))
+        elif guard is not None and guard >= own:
+            ob.site(rel, pre[2], '{}: fewer than {} octets => partial (fixed part is {} octets)'.format(cls, guard, own))
+        else:
+            ob.violate(rel, cls, 'pre_dissect', 'probe class {} reads {} fixed octets without a length check that says "partial": a shorter prefix raises struct.error out of '
+                       'the receive callback'.format(cls, own), tree.klass(rel, cls))
+
+
+def c07g(tree, ob):
+    ''' recv_raw measures a message by re-encoding the probed packet.  scapy keeps octets that follow the last layer as
+    a Padding layer, which is re-encoded too: unless the probe class strips it, the measured length covers the whole
+    receive buffer and the octets of the next message are consumed with this one. '''
+    for (rel, cls, node) in _probe_classes(tree):
+        got = _post_dissection(tree, rel, cls)
+        if not got:
+            ob.violate(rel, cls, 'post_dissection', 'probe class {} never strips trailing octets: they are counted into the message and consumed with it'.format(cls), tree.klass(rel, cls))
+            continue
+        fvp = FuncView(tree, got[0], got[1].name + '.post_dissection')
+        strips = [c for c in calls_in(fvp.func) if (call_name(c) or '').split('.')[-1] == 'remove_padding' and [src(a) for a in c.args] == ['self']]
+        ok = bool(strips) and fvp.cfg.must_pass(fvp.cfg.entry, fvp.cfg.exit, {fvp.node(c) for c in strips}, include_exc=False)[0]
+        if ok:
+            ob.site(rel, strips[0], '{}: trailing octets are stripped on every normal way out of post_dissection'.format(cls))
+        else:
+            ob.violate(rel, cls + '.post_dissection', 'formats.remove_padding(self)', 'probe class {} does not strip trailing octets on every path: they are counted into the message and the next '
+                       'message is consumed with this one'.format(cls), fvp.func)
+    fr = FuncView(tree, FORMATS, 'remove_padding')
+    cut = [c for c in calls_in(fr.func) if isinstance(c.func, ast.Attribute) and c.func.attr == 'remove_payload']
+    pad = [n for n in fr.cfg.nodes if n.kind == 'cond' and any('packet.Padding' in t or t.endswith('Padding)') for (t, p) in norm.all_atoms(n.ast))]
+    if not cut or not pad or not fr.cfg.must_pass(fr.cfg.entry, fr.node(cut[0]), set(pad))[0]:
+        ob.violate(FORMATS, 'remove_padding', 'isinstance(testload, packet.Padding) -> remove_payload()', 'remove_padding does not cut the Padding layer', fr.func)
+    else:
+        ob.site(FORMATS, cut[0], 'remove_padding cuts the Padding layer off its underlayer')
+    # the measured length is that of the re-encoded probe, and exactly that many octets are dropped (C07.a / C01.b)
+
+
+def _len_bound(tree, rel, text, pol, arg):
+    ''' N when the fact (text, pol) means "len(<arg>) < N" (N a constant expression). '''
+    from ..core import const_int
+    try:
+        node = ast.parse(text, mode='eval').body
+    except SyntaxError:
+        return None
+    if not (isinstance(node, ast.Compare) and len(node.ops) == 1):
+        return None
+    (lhs, op, rhs) = (node.left, node.ops[0], node.comparators[0])
+    if pm('len({})'.format(arg), lhs) is None:
+        return None
+    n = _const_len(tree, rel, rhs)
+    if n is None:
+        return None
+    if pol is True and isinstance(op, ast.Lt):
+        return n
+    if pol is True and isinstance(op, ast.LtE):
+        return n + 1
+    if pol is False and isinstance(op, ast.GtE):
+        return n
+    if pol is False and isinstance(op, ast.Gt):
+        return n + 1
+    return None
+
+
+def _const_len(tree, rel, expr):
+    ''' constant integer expressions, with len(<module-level bytes constant>) '''
+    from ..core import const_int
+    if isinstance(expr, ast.BinOp) and isinstance(expr.op, (ast.Add, ast.Sub)):
+        a = _const_len(tree, rel, expr.left)
+        b = _const_len(tree, rel, expr.right)
+        if a is None or b is None:
+            return None
+        return a + b if isinstance(expr.op, ast.Add) else a - b
+    got = pm('len($c)', expr)
+    if got is not None and isinstance(got['c'], ast.Name):
+        for st in tree.module(rel).tree.body:
+            if isinstance(st, ast.Assign) and src(st.targets[0]) == got['c'].id and isinstance(st.value, ast.Constant) and isinstance(st.value.value, (bytes, str)):
+                return len(st.value.value)
+        return None
+    return const_int(tree, rel, expr)
 
 
 def _packet_classes(tree):
@@ -205,13 +306,26 @@ def c07d(tree, ob):
     ob.require(got is not None, 'MessageHead.post_dissection missing')
     fv = FuncView(tree, MSGS, 'MessageHead.post_dissection')
     truthy = [r for r in walk_local(fv.func) if isinstance(r, ast.Raise) and fv.has(r, 'self.payload', False)]
+
+    def only_with_fields(r):
+        ''' the raise is reached only when the class bound to this message type declares fields '''
+        for (text, pol) in fv.facts(r) or ():
+            if pol is True and text.endswith('.fields_desc'):
+                base = ast.parse(text[:-len('.fields_desc')], mode='eval').body
+                val = fv.value_at(base, r)
+                if pm('self.guess_payload_class($_)', val) is not None:
+                    return True
+        return False
+
     for (lo, up, kws, node) in schema.bindings(tree, MSGS):
         if lo != 'MessageHead':
             continue
         mlen = _min_len(tree, MSGS, up)
-        if mlen == 0 and truthy:
+        nfields = len(schema.fields_desc(tree, MSGS, up))
+        applies = [r for r in truthy if not (nfields == 0 and only_with_fields(r))]
+        if mlen == 0 and applies:
             ob.violate(MSGS, 'MessageHead.post_dissection', 'if not self.payload: raise VerifyError  vs  {} (0 octets)'.format(up),
                        '{} is complete with the header octet alone, but the completeness check calls an empty payload partial: '
-                       'the message is not acted on until a further octet arrives'.format(up), truthy[0])
+                       'the message is not acted on until a further octet arrives'.format(up), applies[0])
         else:
             ob.site(MSGS, node, '{} minimal length {} accepted'.format(up, mlen))
